@@ -253,7 +253,8 @@ CURATED = {
     "stratutil": "C(U(l,l),N(l,l),R(l,l))",
     "orthoroot": "O(C(l,l),R(l,l),l)",
     "mixed14": "R(l,O(l,R(l,l),l,C(l,l)),C(l,l),l)",
-    "nestedres": "C(S(C(l,l),R(l,l)),U(C(l,l),l),N(R(l,l),l))",
+    "nestsel": "C(S(C(l,l),R(l,l)),l)",
+    "nestutil": "C(U(C(l,l),l),N(R(l,l),l))",
     "headless": "c(c(l,l),o(l,r(l,l)),l)",
     "ortho89": "C(O(l,l,l,l,l,l,l,C(l,l)),O(l,l,l,l,l,l,l,l,R(l,l)),l)",
     "nestedortho": "C(O(O(l,l),C(l,l)),l)",
